@@ -106,7 +106,10 @@ def exec_builder(cells, ops, builder=None):
 
 
 def exec_slice(cell, ops):
-    s = cell.begin_parse()
+    try:
+        s = cell.begin_parse()
+    except Exception:      # begin_parse itself raised: every read counts as an error (reported by the callers' oracles)
+        return ';'.join('x' for _ in ops) or '-', 'x', 'x'
     out = []
     for tok in ops:
         p = tok.split(':')
